@@ -57,7 +57,14 @@ Snapshot(img, ow, kg) ==
   /\ UNCHANGED <<man, files>>
   /\ last' = [op |-> "snapshot", img |-> img, name |-> "", ow |-> ow, kg |-> kg, res |-> "ok"]
 
+\* a dry run goes through the motions against a no-op file abstraction: whatever the flags and
+\* whatever exists, neither the manifest nor any file changes
+DryRun(img, name, ow, kg) ==
+  /\ UNCHANGED <<man, files>>
+  /\ last' = [op |-> "dryrun", img |-> img, name |-> name, ow |-> ow, kg |-> kg, res |-> "ok"]
+
 Next ==
+  \/ \E img \in Images, name \in Names, ow \in BOOLEAN, kg \in BOOLEAN : DryRun(img, name, ow, kg)
   \/ \E img \in Images, name \in Names, ow \in BOOLEAN, kg \in BOOLEAN : Endorse(img, name, ow, kg)
   \/ \E img \in Images, ow \in BOOLEAN, kg \in BOOLEAN : Snapshot(img, ow, kg)
 
